@@ -132,6 +132,25 @@ Drift(t) == LET p == t.x.pred IN
   IF p.nreply = t.out.nmsgs /\ p.ret = t.out.retc /\ p.fscalls = Len(NonRemap(t)) THEN TRUE
   ELSE PrintT(<<"DRIFT", l, t.x.cls, p, t.out.ret, t.out.nmsgs>>)
 
+(* ---------------- C03: notification messages ---------------- *)
+Notify(n) ==
+  LET code == CASE n.kind = "inval_entry" -> KConstN.FUSE_NOTIFY_INVAL_ENTRY [] n.kind = "inval_inode" -> KConstN.FUSE_NOTIFY_INVAL_INODE
+                [] OTHER -> KConstN.FUSE_NOTIFY_RESEND
+      sig == "C03|notify_" \o n.kind \o "|"
+  IN /\ Chk(n.ok /\ n.nmsgs = 1, sig \o "not-one-message", <<n.ok, n.nmsgs>>)
+     /\ n.nmsgs # 1 \/
+        /\ Chk(n.hdr.len = n.msglen, sig \o "len", <<n.hdr.len, n.msglen>>)
+        /\ Chk(n.hdr.code = code /\ n.hdr.unique = "0", sig \o "header", n.hdr)
+        /\ n.kind # "inval_entry" \/
+              /\ Chk(n.body.parent = n.args.parent, sig \o "parent", <<n.body, n.args>>)
+              /\ Chk(n.body.namelen = ToString(n.args.namelen), sig \o "namelen-counts-the-name-without-NUL", <<n.body.namelen, n.args.namelen>>)
+              /\ Chk(n.tail = n.args.name_nul, sig \o "name", <<n.tail, n.args.name_nul>>)
+              /\ Chk(n.msglen = 16 + StructSize["fuse_notify_inval_entry_out"] + n.args.namelen + 1, sig \o "size", n.msglen)
+        /\ n.kind # "inval_inode" \/
+              /\ Chk(n.body.ino = n.args.ino /\ n.body.off = n.args.off /\ n.body.len = n.args.len, sig \o "fields", <<n.body, n.args>>)
+              /\ Chk(n.msglen = 16 + StructSize["fuse_notify_inval_inode_out"] /\ n.taillen = 0, sig \o "size", n.msglen)
+        /\ n.kind # "resend" \/ Chk(n.msglen = 16, sig \o "size", n.msglen)
+
 Init == l = 1
 Step ==
   /\ l <= Len(Rec)
@@ -139,6 +158,7 @@ Step ==
      TRUE = (CASE t.e = "Tx" /\ t.gen = "wf" -> (C01(t) /\ C02(t) /\ C03(t) /\ C17(t))
                [] t.e = "Tx" /\ t.gen = "class" -> (C01(t) /\ C17(t) /\ Drift(t))
                [] t.e = "Tx" -> (C01(t) /\ C17(t))
+               [] t.e = "Notify" -> Notify(t)
                [] OTHER -> TRUE)
   /\ l' = l + 1
 Done == l = Len(Rec) + 1 /\ PrintT(<<"ACCEPTED", Len(Rec)>>) /\ l' = l + 1
